@@ -4,17 +4,25 @@ import (
 	"strconv"
 	"strings"
 
+	bsi32 "github.com/RoaringBitmap/roaring/v2/BitSliceIndexing"
 	"github.com/RoaringBitmap/roaring/v2/roaring64"
 )
 
 func init() {
-	// bplanes s : the plane-level representation of a roaring64 BSI: number of planes, digest of the existence bitmap,
+	// bplanes s : the plane-level representation of a BSI (roaring64.BSI or BitSliceIndexing.BSI): number of planes, digest of the existence bitmap,
 	// digest of every plane (least significant first, sign plane last)
 	reg("bplanes", func(e *env, a []string) string {
 		need(a, 1)
 		s := e.bs(a[0])
 		if !s.is64 {
-			panic(skipErr{"32-bit index"})
+			// BitSliceIndexing.BSI (hook BitSliceIndexing.VerifBSIPlanes): same rendering; there is no sign plane, plane 63
+			// (when the index has 64 planes) is the two's complement sign bit of the int64 value
+			planes, ebm := bsi32.VerifBSIPlanes(s.b32)
+			out := []string{strconv.Itoa(len(planes)), d32(ebm)}
+			for _, p := range planes {
+				out = append(out, d32(p))
+			}
+			return strings.Join(out, " ")
 		}
 		planes, ebm := roaring64.VerifBSIPlanes(s.b64)
 		out := []string{strconv.Itoa(len(planes)), d64(ebm)}
